@@ -242,15 +242,18 @@ def _hyp_settings(n):
 # Wall-clock watchdog.  The deterministic step budget decides termination of Python code; a hang
 # INSIDE C code (e.g. catastrophic backtracking in the regex engine) fires no line events, holds
 # the GIL and cannot be interrupted by a signal handler or seen by a thread of the same process.
-# Each shard therefore publishes a heartbeat (shared double, time the current case started) and
-# the current case (a small file, rewritten per case); the PARENT watches: when one case has been
-# running for CASE_WALL seconds the shard is killed and the case is re-run alone in a fresh
-# process with CONFIRM_WALL seconds; only if that does not finish either is it reported as
-# non-terminating (typical cases take milliseconds, so these bounds leave 4-5 orders of
-# magnitude of slack); if the fresh process finishes, the shard is inconclusive (exit 2).
+# Each shard therefore publishes a heartbeat (shared double: its own CPU clock when the current
+# case started) and the current case (a small file, rewritten per case); the PARENT watches the
+# shard's consumed CPU time in /proc: when one case has burnt CASE_WALL CPU-seconds the shard is
+# killed and the case is re-run alone in a fresh process under a CPU-time limit (RLIMIT_CPU) of
+# CONFIRM_WALL seconds; only if that limit is hit too is it reported as non-terminating (typical
+# cases take milliseconds of CPU, so these bounds leave 4-5 orders of magnitude of slack); if the
+# fresh process finishes, the shard is inconclusive (exit 2).  CPU time, not wall-clock time: the
+# sandbox's clock jumps when the machine is paused or heavily loaded (a first wall-clock version
+# misfired on a 30 ms case during a thorough run), CPU time does not.
 _WATCH = {"hb": None, "file": None}
-CASE_WALL = float(os.environ.get("VERIF_CASE_WALL", "60"))
-CONFIRM_WALL = float(os.environ.get("VERIF_CONFIRM_WALL", "120"))
+CASE_WALL = float(os.environ.get("VERIF_CASE_WALL", "120"))
+CONFIRM_WALL = float(os.environ.get("VERIF_CONFIRM_WALL", "240"))
 
 
 def _publish_case(case):
@@ -261,7 +264,20 @@ def _publish_case(case):
         f.truncate()
         f.flush()
     if _WATCH["hb"] is not None:
-        _WATCH["hb"].value = time.time()
+        _WATCH["hb"].value = time.process_time() + 1e-9
+
+
+_CLK_TCK = os.sysconf("SC_CLK_TCK")
+
+
+def _proc_cpu(pid):
+    """CPU seconds (user + system) consumed so far by process pid, from /proc."""
+    try:
+        with open(f"/proc/{pid}/stat") as f:
+            fields = f.read().rsplit(")", 1)[1].split()
+        return (int(fields[11]) + int(fields[12])) / _CLK_TCK
+    except Exception:
+        return None
 
 
 def _shard_main(args, base, hb):
@@ -291,15 +307,28 @@ def _confirm_hang(job, base):
         "property": prop,
         "part": part_name,
         "signature": f"{part_name}:nontermination-wallclock",
-        "detail": f"case did not finish within {CASE_WALL:.0f} s in its shard nor within {CONFIRM_WALL:.0f} s alone in a fresh process (no line events: the time is spent inside C code)",
+        "detail": f"case did not finish within {CASE_WALL:.0f} CPU-seconds in its shard nor within {CONFIRM_WALL:.0f} CPU-seconds alone in a fresh process (no line events: the time is spent inside C code)",
         "case": case,
     }
     path = base + ".hangcase.json"
     with open(path, "w") as f:
         json.dump(body, f, default=repr)
+    import resource
+
+    def limit():
+        resource.setrlimit(resource.RLIMIT_CPU, (int(CONFIRM_WALL), int(CONFIRM_WALL) + 5))
+
     try:
-        subprocess.run([sys.executable, "-m", "vlib.run", modname.rsplit(".", 1)[1], "--replay-inner", path], cwd=VERIF_DIR, timeout=CONFIRM_WALL, capture_output=True)
+        r = subprocess.run(
+            [sys.executable, "-m", "vlib.run", modname.rsplit(".", 1)[1], "--replay-inner", path],
+            cwd=VERIF_DIR,
+            timeout=CONFIRM_WALL * 20,
+            capture_output=True,
+            preexec_fn=limit,
+        )
     except subprocess.TimeoutExpired:
+        return {"part": part_name, "error": "confirmation run neither finished nor used its CPU budget within the wall-clock fallback (inconclusive)"}
+    if r.returncode in (-signal.SIGXCPU, -signal.SIGKILL):
         return {"part": part_name, "error": None, "hang": body}
     return {"part": part_name, "error": "a case exceeded the per-case wall clock in its shard but finished alone in a fresh process (inconclusive):\n" + json.dumps(body)[:1500]}
 
@@ -318,6 +347,7 @@ def _run_jobs(jobs, ncpu):
         running = {}
         results = [None] * len(jobs)
         confirmed_parts = set()  # parts with a confirmed hang: further over-time shards are just stopped
+        tick = 0
         while pending or running:
             while pending and len(running) < ncpu:
                 i, job = pending.pop(0)
@@ -326,11 +356,14 @@ def _run_jobs(jobs, ncpu):
                 p.start()
                 running[i] = (p, hb)
             time.sleep(0.02)
-            now = time.time()
+            tick += 1
             for i, (p, hb) in list(running.items()):
                 base = os.path.join(tmp, str(i))
                 if p.exitcode is None:
-                    if hb.value and now - hb.value > CASE_WALL:
+                    start_cpu = hb.value
+                    cpu = _proc_cpu(p.pid) if (start_cpu and tick % 25 == 0) else None
+                    # re-read the heartbeat: the case must still be the same one
+                    if cpu is not None and hb.value == start_cpu and cpu - start_cpu > CASE_WALL:
                         p.kill()
                         p.join()
                         del running[i]
@@ -664,11 +697,19 @@ def do_replay(mod, parts, path, inner=False):
     if not inner:
         import subprocess
 
+        import resource
+
+        def limit():
+            resource.setrlimit(resource.RLIMIT_CPU, (int(CONFIRM_WALL) + 60, int(CONFIRM_WALL) + 65))
+
         try:
-            r = subprocess.run([sys.executable, "-m", "vlib.run", mod.PROPERTY, "--replay-inner", path], cwd=VERIF_DIR, timeout=CONFIRM_WALL + 60, capture_output=True, text=True)
+            r = subprocess.run([sys.executable, "-m", "vlib.run", mod.PROPERTY, "--replay-inner", path], cwd=VERIF_DIR, timeout=(CONFIRM_WALL + 60) * 20, capture_output=True, text=True, preexec_fn=limit)
         except subprocess.TimeoutExpired:
+            print("replay: inconclusive (neither finished nor used its CPU budget)")
+            return 2
+        if r.returncode in (-signal.SIGXCPU, -signal.SIGKILL):
             print(f"VIOLATION property={mod.PROPERTY} replay={path}")
-            print(f"  signature: nontermination-wallclock (did not finish within {CONFIRM_WALL + 60:.0f} s)")
+            print(f"  signature: nontermination-wallclock (did not finish within {CONFIRM_WALL + 60:.0f} CPU-seconds)")
             return 1
         sys.stdout.write(r.stdout)
         if r.returncode not in (0, 1):
